@@ -5,6 +5,7 @@ package c07
 
 import (
 	"fmt"
+	"io/fs"
 	"math"
 	"os"
 	"reflect"
@@ -522,6 +523,24 @@ func TestCheck(t *testing.T) {
 		return nil
 	})
 
+	// (a-user) the refusals for lack of permission: the same calls by a user who may not search, read or
+	// write what they name (the error paths of every method that checks a permission)
+	{
+		n := 0
+		for i, ops := range userCases() {
+			if i%c.NShards != c.Shard {
+				continue
+			}
+			n++
+			c.Eval(1)
+			c.NonTrivial(vt.Hash64("user", fmt.Sprint(ops)))
+			if dev := userRun(ops); dev != nil {
+				c.Report(dev, Case{Kind: "user", FS: "MemFS+user", Ops: ops})
+			}
+		}
+		c.Extra("as_user", fmt.Sprintf("%d calls and handle sequences (this shard) by a non-administrator on 8 operands he lacks a permission for", n))
+	}
+
 	// (b) schedules: every execution explored for C06 is a C07 case
 	maxPre := c.Pick(2, 3)
 	for _, kind := range []string{"MemFS", "OrefaFS"} {
@@ -601,6 +620,10 @@ func TestCheck(t *testing.T) {
 			{{K: "Truncate", P: "/w/big", Size: 0}}, {{K: "Truncate", P: "/w/big", Size: 2000}}, {{K: "Remove", P: "/w/big"}}, {{K: "Rename", P: "/w/big", P2: "/w/d/big"}},
 			{{K: "ReadDir", P: "/w/d"}}, {{K: "WalkDir", P: "/w"}}, {{K: "Glob", P: "/w/*/*"}}, {{K: "RemoveAll", P: "/w/d"}}, {{K: "MkdirAll", P: "/w/d/e/m/n", Perm: 0o755}},
 			{{K: "Rename", P: "/w/d/e", P2: "/w/e"}}, {{K: "Remove", P: "/w/d/x"}},
+			// positioned reads and writes inside the file against the calls that shrink it
+			{{K: "Open", P: "/w/big", Flag: os.O_RDONLY, H: 1}, {K: "FReadAt", H: 1, N: 16, Off: 32}, {K: "FSeek", H: 1, Off: 40, Whence: 0}, {K: "FRead", H: 1, N: 16}, {K: "FClose", H: 1}},
+			{{K: "Open", P: "/w/big", Flag: os.O_RDWR, H: 2}, {K: "FWriteAt", H: 2, Data: "at", Off: 300}, {K: "FSeek", H: 2, Off: -5, Whence: 2}, {K: "FWrite", H: 2, Data: "tail"}, {K: "FTruncate", H: 2, Size: 10}, {K: "FClose", H: 2}},
+			{{K: "Open", P: "/w/big", Flag: os.O_RDWR | os.O_TRUNC, H: 3}, {K: "FClose", H: 3}},
 		}
 		i, execs := 0, 0
 		for a, c1 := range compCalls {
@@ -617,7 +640,7 @@ func TestCheck(t *testing.T) {
 				execs += n
 			}
 		}
-		c.Extra("schedules_composites_"+kind, fmt.Sprintf("%d scheduled executions of pairs of %d composite and mutating calls on a 600-byte file and a small tree, pre-emption bound %d", execs, len(compCalls), maxPre))
+		c.Extra("schedules_composites_"+kind, fmt.Sprintf("%d scheduled executions of pairs of %d composite, positioned and mutating calls on a 600-byte file and a small tree, pre-emption bound %d", execs, len(compCalls), maxPre))
 	}
 
 	// (b') 3 workers, random schedules
@@ -723,6 +746,8 @@ func replay(c *vt.Ctx, cs Case) *vt.Deviation {
 		return concDev(*cs.Conc, res)
 	case "idm":
 		return idmRun(cs.Idm)
+	case "user":
+		return userRun(cs.Ops)
 	case "misc":
 		v, err := build(cs.FS, advPrefix(strings.Contains(cs.FS, "MemFS") && !strings.HasPrefix(cs.FS, "BasePathFS")))
 		if err != nil {
@@ -757,4 +782,66 @@ func replay(c *vt.Ctx, cs Case) *vt.Deviation {
 		}
 	}
 	return judge(cs.FS, hstate, cs.Ops, outs, verdict, nh)
+}
+
+// userFS: a MemFS with users, a tree restricted in every way, and the current user set to a
+// non-administrator who owns nothing in it but /w/mine.
+func userFS() avfs.VFS {
+	idm := memidm.NewWithOptions(&memidm.Options{OSType: avfs.OsLinux})
+	v := memfs.NewWithOptions(&memfs.Options{OSType: avfs.OsLinux, Idm: idm})
+	_, _ = idm.AddGroup("g1")
+	u1, _ := idm.AddUser("u1", "g1")
+	_ = v.SetUMask(0)
+	_ = v.Chdir("/")
+	_ = v.MkdirAll("/w", 0o777)
+	for _, d := range []struct {
+		p string
+		m fs.FileMode
+	}{{"/w/ns", 0o744}, {"/w/nr", 0o311}, {"/w/np", 0}, {"/w/st", 0o777 | fs.ModeSticky}, {"/w/ok", 0o777}} {
+		_ = v.Mkdir(d.p, 0o777)
+		_ = v.WriteFile(d.p+"/f", []byte("data"), 0o644)
+		_ = v.Mkdir(d.p+"/d", 0o755)
+		_ = v.Chmod(d.p, d.m)
+	}
+	_ = v.WriteFile("/w/ro", []byte("read only"), 0o444)
+	_ = v.WriteFile("/w/hid", []byte("hidden"), 0)
+	_ = v.SetUser(u1)
+	_ = v.WriteFile("/w/mine", []byte("mine"), 0o600)
+	_ = v.Mkdir("/w/mydir", 0o700)
+	return v
+}
+
+func userCases() [][]fsx.Op {
+	var r [][]fsx.Op
+	targets := []string{"/w/ns", "/w/ns/f", "/w/ns/d", "/w/nr", "/w/nr/f", "/w/np", "/w/np/f", "/w/st/f", "/w/st/d", "/w/ro", "/w/hid", "/w/ok/f"}
+	for _, p := range targets {
+		for _, k := range []string{"Mkdir", "MkdirAll", "Create", "ReadFile", "Remove", "RemoveAll", "Readlink", "Chdir", "Stat", "Lstat", "ReadDir", "EvalSymlinks", "WalkDir", "Glob"} {
+			o := fsx.Op{K: k, P: p, Perm: 0o755}
+			if k == "Glob" {
+				o.P = p + "/*"
+			}
+			if k == "Mkdir" || k == "MkdirAll" || k == "Create" {
+				o.P = p + "/new"
+			}
+			r = append(r, []fsx.Op{o, {K: "Getwd"}})
+		}
+		r = append(r, []fsx.Op{{K: "WriteFile", P: p, Data: "d", Perm: 0o644}}, []fsx.Op{{K: "Chmod", P: p, Perm: 0o777}}, []fsx.Op{{K: "Chown", P: p, Uid: 0, Gid: 0}}, []fsx.Op{{K: "Lchown", P: p, Uid: -1, Gid: -1}},
+			[]fsx.Op{{K: "Chtimes", P: p, MT: 1000000000}}, []fsx.Op{{K: "Truncate", P: p, Size: 0}}, []fsx.Op{{K: "CreateTemp", P: p, P2: "t*"}}, []fsx.Op{{K: "MkdirTemp", P: p, P2: "t*"}},
+			[]fsx.Op{{K: "Rename", P: p, P2: "/w/mydir/z"}}, []fsx.Op{{K: "Rename", P: "/w/mine", P2: p}}, []fsx.Op{{K: "Rename", P: "/w/mydir", P2: p}}, []fsx.Op{{K: "Link", P: p, P2: "/w/mydir/l"}}, []fsx.Op{{K: "Link", P: "/w/mine", P2: p + "/l"}},
+			[]fsx.Op{{K: "Symlink", P: p, P2: "/w/mydir/s"}, {K: "Stat", P: "/w/mydir/s"}, {K: "Stat", P: "/w/mydir/s/f"}})
+		for _, fl := range []int{os.O_RDONLY, os.O_RDWR, os.O_WRONLY | os.O_TRUNC, os.O_RDWR | os.O_CREATE, os.O_WRONLY | os.O_CREATE | os.O_EXCL, os.O_WRONLY | os.O_APPEND} {
+			seq := []fsx.Op{{K: "Open", P: p, Flag: fl, Perm: 0o644, H: 0}}
+			for _, h := range []fsx.Op{{K: "FChdir"}, {K: "Getwd"}, {K: "FStat"}, {K: "FReadDir", N: -1}, {K: "FReaddirnames", N: 1}, {K: "FRead", N: 4}, {K: "FWrite", Data: "w"}, {K: "FChmod", Perm: 0o777}, {K: "FChown", Uid: 0, Gid: 0},
+				{K: "FTruncate", Size: 1}, {K: "FSync"}, {K: "FChdir"}, {K: "FClose"}, {K: "FChdir"}} {
+				seq = append(seq, h)
+			}
+			r = append(r, seq)
+		}
+	}
+	return r
+}
+
+func userRun(ops []fsx.Op) *vt.Deviation {
+	outs, verdict, nh := runSingleR(userFS(), ops)
+	return judge("MemFS+user", "", ops, outs, verdict, nh)
 }
